@@ -46,6 +46,18 @@ def gen(tier, rng, boost=1):
     ops += gen_c10(tier, rng, boost)
     # token-level MsgPack readers: string reader vs stream reader, single calls at the cache boundaries and histories
     ops += gen_c10mp(tier, rng, boost)
+    # JSON and XML: the same document loaded from a string and from a stream (C08's document generators; every op twice)
+    from . import C08 as J
+    jx = J.gen_c04_json(rng, tier, boost)[: (200 if tier == "quick" else 20000)] + J.gen_json_docs(rng, tier, boost)
+    try:
+        jx += [o for o in J.gen_xml(tier, rng, boost) if o.startswith("xml.load")][: (150 if tier == "quick" else 10000)]
+    except AttributeError:
+        pass
+    for o in jx:
+        t = o.split(" ")
+        if t[0] in ("json.load", "xml.load") and t[2] in ("str", "stream"):
+            ops.append(" ".join(t[:2] + ["str"] + t[3:]))
+            ops.append(" ".join(t[:2] + ["stream"] + t[3:]))
     # "saving to a stream yields exactly the bytes of saving to memory": every writer entry point of both MsgPack writers
     from .C06 import gen as gen_c06
     ops += gen_c06(tier, rng, boost)
@@ -55,6 +67,9 @@ def gen(tier, rng, boost=1):
 def adjust_verdict(op, impl, verdict):
     """mp.write ops are borrowed from C06 and judged here only for C10's own question: do CMsgPackStringWriter and
     CMsgPackStreamWriter produce the same bytes / the same error? (the bytes themselves are C06's business)"""
+    if op.startswith(("json.", "xml.")):
+        # conformance of the adapters is C08's question (its listed findings are C08's); here: model correspondence + str/stream pairs
+        return "ok" if verdict.startswith("known:") else verdict
     if op.startswith(("mp.read", "mp.skip", "mp.type")):
         # conformance of single reader calls to the MessagePack Spec is C07's question (its listed findings are C07's);
         # here: correspondence with the two models + pairwise equality of the mem/stream answers (extra_checks)
@@ -74,6 +89,14 @@ def extra_checks(ops, impl, res, known_classes, known_hits):
     seen = {}
     for op, ia in zip(ops, impl):
         t = op.split(" ")
+        if t[0] in ("json.load", "xml.load"):
+            key = " ".join(t[:2] + t[3:])
+            if key in seen and seen[key][0] != t[2]:
+                if seen[key][1] != ia:
+                    bad.append((op, ia, seen[key][1], "bad:memory_and_stream_answers_differ"))
+            else:
+                seen[key] = (t[2], ia)
+            continue
         if t[0] != "mp.scope":
             continue
         key = " ".join(t[2:])
